@@ -1,5 +1,5 @@
 SPECIFICATION Spec
-CONSTANTS MaxOps = 4
+CONSTANTS MaxOps = 4 RawOps = 7
   Shapes <- ShapesQ
   Datas <- DatasQ
   Ks <- KsQ
@@ -10,5 +10,5 @@ CONSTANTS MaxOps = 4
   Ahead <- AheadQ
 VIEW View
 INVARIANTS TypeOK RawConservation RawRefines FileRefines ReadRefines FlushComplete
-PROPERTIES RawTiling RawDiscard ReadIsFile EndlExact
+PROPERTIES RawTiling RawPeek RawDiscard ReadIsFile EndlExact
 CHECK_DEADLOCK FALSE
